@@ -449,6 +449,7 @@ func runC14(c *an.Ctx) {
 			}
 		}
 	}
+	c.Ok("C14.d", "removal-outside-step:inventory", "the removal events of every function reachable from DeleteRange were enumerated (each one outside the per-height step is a violation of its own)", d.deleteRange, nil, itoa(nRem)+" removal events outside the step, "+itoa(len(reach))+" functions", nil)
 	// wipe/deinit run only after a complete, clean deletion of the range
 	dt, df := c.T(d.deleteRange), c.F(d.deleteRange)
 	for _, wc := range callsTo(d.deleteRange, d.wipe) {
